@@ -378,7 +378,7 @@ fn ergsym_created_large_before_activation(run: &Run, thorough: bool) {
 /// withdrawals so small that their share of both reserves rounds to zero - alone and next to a large one.  The tokens of such a
 /// request are burnt like any other's (two zero-valued coins come back); seed C16-r12-2 left the request's coin in place while
 /// the pool's record had already been debited.
-fn withdrawals_whose_share_rounds_to_zero(run: &Run) {
+pub fn withdrawals_whose_share_rounds_to_zero(run: &Run) {
     use melstructs::{CoinID, TxKind};
     let eng = Engine::new(run);
     let (_w, rootn) = root(NetID::Custom02, 0, false);
@@ -440,7 +440,7 @@ fn withdrawals_whose_share_rounds_to_zero(run: &Run) {
         run.outcome("zero-share-withdrawals:liquidity-smaller-than-expected");
         return;
     }
-    let cut = tx_t(TxKind::Normal, vec![dep.output_coinid(0), fund.output_coinid(2)], vec![out_t(100, liq), out_t(50, liq), out_t(500_000, liq), out_t(liq_total - 500_150, liq), out_t(1001, Denom::Mel)], 0, vec![]);
+    let cut = tx_t(TxKind::Normal, vec![dep.output_coinid(0), fund.output_coinid(2)], vec![out_t(100, liq), out_t(50, liq), out_t(500_000, liq), out_t(liq_total - 500_151, liq), out_t(1001, Denom::Mel), out_t(1, liq)], 0, vec![]);
     let wd = |i: u8, v: u128, carrier: u8| tx_t(TxKind::LiqWithdraw, vec![cut.output_coinid(i), fund.output_coinid(carrier)], vec![out_t(v, liq)], 1000 + carrier as u128 - 1, k.to_bytes().to_vec());
     let mut base = node;
     for a in [Action::Open, Action::Batch { label: "liquidity coin cut into 100 / 50 / 500000 / rest".into(), txs: vec![cut.clone()], expect_ok: true }, Action::Seal(None), Action::Open] {
@@ -457,6 +457,9 @@ fn withdrawals_whose_share_rounds_to_zero(run: &Run) {
         ("withdraw 100 and 50", vec![wd(0, 100, 3), wd(1, 50, 4)]),
         ("withdraw 100 next to 500000", vec![wd(0, 100, 3), wd(2, 500_000, 5)]),
         ("withdraw 500000 alone", vec![wd(2, 500_000, 5)]),
+        // the smallest request there is: one token (the mutation scan's `value > 0` -> `value > 1` in the request filter survived)
+        ("withdraw 1 alone", vec![wd(5, 1, 6)]),
+        ("withdraw 1 next to 100", vec![wd(5, 1, 6), wd(0, 100, 3)]),
     ];
     for (name, txs) in blocks {
         run.state();
